@@ -15,10 +15,12 @@ MODULES = [
     'contracts.c09_state',
     'contracts.c11_completion',
     'contracts.c32_expiry',
+    'contracts.c02_retries',
 ]
 
 EXTRA_CHECKS = {'C26': ['contracts.c26_census:check'],
                 'C09': ['contracts.c09_census:check'],
+                'C02': ['contracts.c02_retries:census'],
                 'C32': ['contracts.c32_expiry:census'],
                 'C11': ['contracts.c11_bounded:check'],
                 'C05': ['contracts.c05_bounded:check']}
